@@ -744,7 +744,10 @@ class CSemantics:
     def on_char(self, value, location):
         """Process a character literal"""
         # Get value from string:
-        char_value, kind = utils.charval(value)
+        try:
+            char_value, kind = utils.charval(value)
+        except ValueError:
+            self.error(f"Invalid character constant {value}", location)
         typ = self.get_type(kind)
         return expressions.CharLiteral(char_value, typ, location)
 
